@@ -179,6 +179,7 @@ theorem dftStep_spec (c : Cfg) (B : Bank α) (w : WF c B) (X : Int → α) (n1 L
     LoopInv c B X n1 L xRem0 yRem0 E0 (d + 1) (dftStep c B (seg X n1 L) xRem0 d s) := by
   obtain ⟨E', ix, ic, iy, iT, i2, iE, iD, iF, iok⟩ := inv
   have hS := w.hS
+  have hM1 : 1 ≤ c.M := by have := w.hM; split_ifs at this <;> omega
   obtain ⟨hVS, hVM⟩ := vPerDft_ge w
   have eV : (d + 1) * vPerDft c = d * vPerDft c + vPerDft c := Nat.succ_mul _ _
   -- end_idx and y_keep as naturals
@@ -199,6 +200,83 @@ theorem dftStep_spec (c : Cfg) (B : Bank α) (w : WF c B) (X : Int → α) (n1 L
     rw [this]
     generalize d * vPerDft c = dV at *
     omega
-  sorry
+  have heL : ePrev c L xRem0 (d + 1) ≤ L := by unfold ePrev; omega
+  have hmono : ePrev c L xRem0 d ≤ ePrev c L xRem0 (d + 1) := by unfold ePrev; rw [eV]; omega
+  have hkpos : 0 < min (vPerDft c) (xRem0 + L - d * vPerDft c) := by omega
+  have hcur := xStep_spec c.D X n1 L s.copied (ePrev c L xRem0 (d + 1)) (by omega) heL
+  -- what `_fill_y_buf` sees: the next `y_keep` filtered samples of every filter
+  have hy : ∀ h ∈ B.filts,
+      (lastK (circConv c.D (seg X ((n1 : Int) + (ePrev c L xRem0 (d + 1) : Nat) - c.D) c.D) h)
+          (min (vPerDft c) (xRem0 + L - d * vPerDft c))).map B.phi
+        = seg (vOf c B X h) (((E' * c.S : Nat) : Int) + (s.yRem : Int))
+            (min (vPerDft c) (xRem0 + L - d * vPerDft c)) := by
+    intro h hh
+    have hl := w.hfilt h hh
+    rw [lastK_circConv_seg c.D X _ h _ hkpos (by omega) (by omega), map_phi_seg]
+    apply seg_congr'
+    intro i hi
+    unfold vOf
+    rw [linY_eq_lin, offs_eq]
+    congr 2
+    unfold rawN at hP
+    unfold ePrev
+    rw [eV]
+    generalize d * vPerDft c = dV at *
+    generalize E' * c.S = ES at *
+    generalize E0 * c.S = E0S at *
+    push_cast
+    omega
+  have hfit : s.yRem + min (vPerDft c) (xRem0 + L - d * vPerDft c) ≤ yBlocks c * c.S := by
+    have := (yBlocks_ge c hS).2
+    omega
+  unfold dftStep
+  simp only [seg_length, he, hk, Int.toNat_natCast]
+  rw [ix, hcur]
+  simp only
+  rw [iy, fillYBuf_spec c B X hS w.hwin _ E' s.yRem _ hfit hy]
+  simp only
+  rw [frameLoop_spec c B X hS _ E' _ s.frames (Nat.le_refl _) hfit]
+  simp only
+  obtain ⟨q1, q2⟩ := div_facts (s.yRem + min (vPerDft c) (xRem0 + L - d * vPerDft c)) c.S hS
+  generalize hyR : s.yRem + min (vPerDft c) (xRem0 + L - d * vPerDft c) = yR at *
+  generalize hq : yR / c.S = q at *
+  refine ⟨E' + (q - 1), rfl, ?_, rfl, ?_, ?_, by omega, ?_, ?_, ?_⟩ <;> dsimp only
+  · split_ifs <;> omega
+  · -- E''·S + yRem'' = P0 + cum (d+1)
+    rw [eV]
+    rw [Nat.add_mul]
+    have hq1 : (q - 1) * c.S ≤ yR := by
+      have : (q - 1) * c.S ≤ q * c.S := Nat.mul_le_mul_right _ (by omega)
+      omega
+    generalize d * vPerDft c = dV at *
+    generalize (q - 1) * c.S = qS at *
+    omega
+  · -- yRem'' < 2S
+    rcases Nat.lt_or_ge q 2 with h | h
+    · have : q - 1 = 0 := by omega
+      rw [this, Nat.zero_mul]
+      have : q * c.S ≤ 1 * c.S := Nat.mul_le_mul_right _ (by omega)
+      omega
+    · obtain ⟨q', rfl⟩ : ∃ q', q = q' + 1 := ⟨q - 1, by omega⟩
+      rw [Nat.add_sub_cancel]
+      rw [Nat.succ_mul] at q1 q2
+      omega
+  · rcases Nat.lt_or_ge q 2 with h | h
+    · have : q - 1 = 0 := by omega
+      rw [this, Nat.zero_mul]
+      rcases iD with h1 | h1
+      · left; omega
+      · right; omega
+    · right
+      obtain ⟨q', rfl⟩ : ∃ q', q = q' + 1 := ⟨q - 1, by omega⟩
+      rw [Nat.add_sub_cancel]
+      rw [Nat.succ_mul] at q1 q2
+      omega
+  · rw [iF, ← List.map_append]
+    congr 1
+    have e : E' + (q - 1) - E0 = (E' - E0) + (q - 1) := by omega
+    have e2 : List.range' E' (q - 1) = List.range' (E0 + (E' - E0)) (q - 1) := by congr 1; omega
+    rw [e, e2, List.range'_append_1]
+  · simp [iok]
 
 end PdsVerif.SiChunk
